@@ -304,6 +304,32 @@ def attribute(scen, rec, f, fail):
     return None
 
 
+def starved(scen, rec, f, props):
+    """runs under the scheduler that never lets a task body finish"""
+    out = []
+    if rec["end"] not in ("stopped", "quiescent"):
+        return out
+    if "C06" in (props or []) and f["kill_shutdown"] and not f["crashes"]:
+        for ui, u in enumerate(scen["users"]):
+            for oi, op in enumerate(u):
+                if op[0] == "shutdown" and op[1] and op[2]:
+                    done = [a for a in rec["api"] if a[0] == ui and a[1] == oi]
+                    started = [a for a in rec["api"] if a[0] == ui and a[1] == oi - 1] or oi == 0
+                    if started and not done and rec["blocked"].get(f"U{ui}", "").startswith(("tjoin", "acquire")):
+                        out.append(("C06", "needs-task-progress",
+                                    f"shutdown(kill_workers=True) has not returned although every actor except the task bodies is "
+                                    f"quiescent: U{ui} blocked in {rec['blocked'].get(f'U{ui}')}, M in {rec['blocked'].get('M')}"))
+    if "C08" in (props or []) and scen.get("family") == "saturate" and not f["crashes"]:
+        nsub = sum(1 for a in rec["api"] if a[2] == "submit" and a[3] == "ok")
+        want = min(scen["max_workers"], nsub)
+        users_done = all(d for n, d in rec["actors_done"].items() if n.startswith("U"))
+        if users_done and len(rec["final"]["in_body"]) != want:
+            out.append(("C08", "parallelism-not-delivered",
+                        f"{nsub} long tasks submitted to a healthy executor with max_workers={scen['max_workers']}: "
+                        f"{len(rec['final']['in_body'])} bodies executing when nothing else can move; blocked={rec['blocked']}"))
+    return out
+
+
 ALL = {"C01": c01, "C02": c02, "C03": c03, "C04": c04, "C05": c05, "C06": c06, "C07": c07, "C08": c08}
 
 
